@@ -106,20 +106,20 @@ def o_opts(case):
 
     STREAMKIND["kind"] = case.get("stream", "scripted")
     STREAMKIND["bufsize"] = case.get("bufsize", 16)
-    lg = logging.getLogger("pyrtcm")
-    old_level = lg.level
-    if case.get("debug"):
-        lg.setLevel(logging.DEBUG)  # a legitimate application setting; must not change what is returned
+    from pv.core import diagnostics
+
     try:
-        return _o_opts(case)
+        with diagnostics(bool(case.get("debug"))):  # legitimate application settings; must not change what is returned
+            return _o_opts(case)
     finally:
-        lg.setLevel(old_level)
         STREAMKIND["kind"] = "scripted"
 
 
 def _o_opts(case):
     from pyrtcm import RTCMReader
     from pyrtcm.exceptions import RTCMParseError
+
+    ON, OFF = (1, 0) if case.get("intflags") else (True, False)  # "parsed: 1 = raw and parsed, 0 = raw only" (docstring)
 
     items = case["items"]
     lm = case["labelmsm"]
@@ -141,16 +141,16 @@ def _o_opts(case):
     if case.get("preconstruct"):
         # all five readers exist before the first one is read (options must belong to the instance)
         for d, kw in (
-            (data, dict(validate=0, quitonerror=qoe, labelmsm=lm, parsed=True)),
-            (data, dict(validate=1, quitonerror=qoe, labelmsm=lm, parsed=True)),
-            (gdata, dict(validate=case["validate"], quitonerror=qoe, labelmsm=lm, parsed=True)),
-            (gdata, dict(validate=case["validate"], quitonerror=qoe, labelmsm=lm, parsed=False)),
-            (data, dict(validate=case["validate"], quitonerror=qoe, labelmsm=lm, parsed=False)),
-            (data, dict(validate=1 - case["validate"], quitonerror=(qoe + 1) % 3, labelmsm=3 - lm, parsed=False)),
+            (data, dict(validate=0, quitonerror=qoe, labelmsm=lm, parsed=ON)),
+            (data, dict(validate=1, quitonerror=qoe, labelmsm=lm, parsed=ON)),
+            (gdata, dict(validate=case["validate"], quitonerror=qoe, labelmsm=lm, parsed=ON)),
+            (gdata, dict(validate=case["validate"], quitonerror=qoe, labelmsm=lm, parsed=OFF)),
+            (data, dict(validate=case["validate"], quitonerror=qoe, labelmsm=lm, parsed=OFF)),
+            (data, dict(validate=1 - case["validate"], quitonerror=(qoe + 1) % 3, labelmsm=3 - lm, parsed=OFF)),
         ):
             PRE[(id(d), tuple(sorted(kw.items())))] = make(d, **kw)
     # validate = 0: everything returned, decoded as with the right CRC
-    v0, s0 = run(data, validate=0, quitonerror=qoe, labelmsm=lm, parsed=True)
+    v0, s0 = run(data, validate=0, quitonerror=qoe, labelmsm=lm, parsed=ON)
     r0 = [x for x in v0 if x[0] != "exc"]
     if [r for r, _, _ in r0] != allframes:
         raise Fail("validate0-frames", f"validate=0 returned {len(r0)} frames, stream holds {len(allframes)} (good or wrong CRC)")
@@ -172,7 +172,7 @@ def _o_opts(case):
     sp0 = spans(v0, data, "validate=0")
 
     # validate = 1 on the same stream: exactly the good frames, same byte ranges
-    v1, s1 = run(data, validate=1, quitonerror=qoe, labelmsm=lm, parsed=True)
+    v1, s1 = run(data, validate=1, quitonerror=qoe, labelmsm=lm, parsed=ON)
     r1 = [x for x in v1 if x[0] != "exc"]
     if [r for r, _, _ in r1] != goodframes:
         raise Fail("validate1-frames", f"validate=1 returned {len(r1)} frames, expected the {len(goodframes)} good ones")
@@ -184,8 +184,8 @@ def _o_opts(case):
         raise Fail("validate1-raise-count", f"{nexc} exceptions for {len(allframes) - len(goodframes)} wrong-CRC frames")
 
     # parsed = False on the all-valid version: same raw frames as parsed = True, no objects
-    pt, spt = run(gdata, validate=case["validate"], quitonerror=qoe, labelmsm=lm, parsed=True)
-    pf, spf = run(gdata, validate=case["validate"], quitonerror=qoe, labelmsm=lm, parsed=False)
+    pt, spt = run(gdata, validate=case["validate"], quitonerror=qoe, labelmsm=lm, parsed=ON)
+    pf, spf = run(gdata, validate=case["validate"], quitonerror=qoe, labelmsm=lm, parsed=OFF)
     if [x[0] for x in pf] != [x[0] for x in pt] or [x[0] for x in pt] != gall:
         raise Fail("parsed-false-frames", f"parsed=False returned {len(pf)} frames, parsed=True {len(pt)}, stream holds {len(gall)}")
     if any(x[1] is not None for x in pf):
@@ -193,7 +193,7 @@ def _o_opts(case):
     if spans(pf, gdata, "parsed=False") != spans(pt, gdata, "parsed=True"):
         raise Fail("byte-accounting", "parsed changed which bytes are taken for a frame")
     # parsed = False on the stream with wrong CRCs: byte accounting only
-    pb, spb = run(data, validate=case["validate"], quitonerror=qoe, labelmsm=lm, parsed=False)
+    pb, spb = run(data, validate=case["validate"], quitonerror=qoe, labelmsm=lm, parsed=OFF)
     spans(pb, data, "parsed=False (wrong CRCs present)")
     for s, nm in ((s0, "validate=0"), (s1, "validate=1"), (spt, "parsed=True"), (spf, "parsed=False"), (spb, "parsed=False/bad")):
         if not s.exhausted:
@@ -231,6 +231,7 @@ def s_opts(draw, tier):
         "bufsize": draw(st.sampled_from([2, 3, 16, 16, 64, 8192])),
         "debug": draw(st.integers(0, 3)) == 0,
         "preconstruct": draw(st.booleans()),
+        "intflags": draw(st.booleans()),
     }
 
 
